@@ -4,6 +4,7 @@ pub mod build {
     pub use crate::build_input as input;
     pub use crate::build_coinbase_input as coinbase_input;
     pub use crate::build_output as output;
+    pub use crate::build_partial_transaction as partial_transaction;
 }
 pub struct Append<K, B> { pub k: core::marker::PhantomData<K>, pub b: core::marker::PhantomData<B>, pub tag: u8 }
 pub enum PartSpec { Input { value: u64, key: Identifier }, CoinbaseInput { value: u64, key: Identifier }, Output { value: u64, key: Identifier } }
@@ -20,4 +21,13 @@ pub fn build_output<K, B>(value: u64, key_id: Identifier) -> (r: Box<Append<K, B
     ensures part_spec(*r) == (PartSpec::Output { value, key: key_id }) { unimplemented!() }
 
 // the inputs/outputs a transaction body was built from (grin_core::libtx::build), abstractly
-pub uninterp spec fn tx_parts(t: Transaction) -> Seq<PartSpec>;
+pub uninterp spec fn body_parts(b: u64) -> Seq<PartSpec>;
+pub open spec fn tx_parts(t: Transaction) -> Seq<PartSpec> { body_parts(t.t) }
+
+// build::partial_transaction: adds exactly the given parts to the transaction, keeps its kernels (A-build)
+#[verifier::external_body]
+pub fn build_partial_transaction<K, B>(tx: Transaction, elems: &Vec<Box<Append<K, B>>>, keychain: &K, builder: &B) -> (r: Result<(Transaction, BlindingFactor), libtx::Error>)
+    ensures r matches Ok((t, b)) ==> tx_parts(t) == tx_parts(tx) + parts_spec(elems@) && tx_kernels(t) == tx_kernels(tx)
+        && tx_num_inputs(t) + tx_num_outputs(t) == tx_num_inputs(tx) + tx_num_outputs(tx) + elems@.len()
+        && tx_num_inputs(t) >= tx_num_inputs(tx) && tx_num_outputs(t) >= tx_num_outputs(tx) && t.offset == tx.offset
+{ unimplemented!() }
